@@ -6,6 +6,7 @@ import (
 	"fmt"
 	"go/ast"
 	"go/token"
+	"go/types"
 	"sort"
 	"strings"
 
@@ -189,12 +190,30 @@ func checkC17(p *Prog, r *Result, tier string) {
 		why := ""
 		n := 0
 		var visit func(fn *FuncNode)
+		seenH := map[*FuncNode]bool{}
 		visit = func(fn *FuncNode) {
 			fn.inspectBody(func(x ast.Node) bool {
 				c, ok := x.(*ast.CallExpr)
 				if !ok || fn.Callee(c) == nil || fn.Callee(c).Pkg() == nil || fn.Callee(c).Pkg().Path() != "context" {
 					if ok && fn.Callee(c) != nil && fn.Callee(c).Name() == "Deadline" {
 						why = "a context's Deadline() is read at " + p.pos(c) + ": a step's or the rollback's budget is tied to another context's deadline"
+					}
+					// a helper of the package that is handed the ttl (the rollback tail as a function of its own)
+					if ok && fn.Callee(c) != nil {
+						if H := p.ByObj[fn.Callee(c)]; H != nil && H.Body != nil && H.Pkg == T.Pkg && H != T && !seenH[H] {
+							for i, a := range c.Args {
+								if fn.objOf(a) == ttl && ttl != nil {
+									seenH[H] = true
+									saved := ttl
+									ttl = H.paramObj(i)
+									visit(H)
+									for _, l := range H.Lits {
+										visit(l)
+									}
+									ttl = saved
+								}
+							}
+						}
 					}
 					return true
 				}
@@ -225,6 +244,15 @@ func checkC17(p *Prog, r *Result, tier string) {
 		for g := f; g != nil; g = g.Parent() {
 			if g == sT || g == sP {
 				return true
+			}
+		}
+		// a helper of the same package that is handed a step (a function-typed parameter) is part of the helper's
+		// logic (e.g. the rollback tail extracted into a function of its own): interpreted, not treated as opaque
+		if f.Pkg != nil && sT.Pkg != nil && f.Pkg == sT.Pkg && f != sN && f.Blocks != nil {
+			for _, prm := range f.Params {
+				if _, isFn := prm.Type().Underlying().(*types.Signature); isFn {
+					return true
+				}
 			}
 		}
 		return false
